@@ -265,6 +265,9 @@ def binop(st, op, a, b, line=None):
         if op in ("&", "|", "^") and isinstance(a, VBool) and isinstance(b, VBool):
             return [(None, VBool({"&": z3.And(a.t, b.t), "|": z3.Or(a.t, b.t),
                                   "^": z3.Xor(a.t, b.t)}[op]))]
+        if op in ("<<", ">>", "&", "|", "^") and not isf:
+            from . import pyint
+            return pyint.binop(st, op, to_int(a).t, to_int(b).t, line)
         if op == "**" and not isf:
             cb = concrete_int(to_int(b).t)
             if cb is not None and cb >= 0:
